@@ -332,7 +332,7 @@ def correspondence(ctx, model_ok=True):
                 failures.append({"what": "scenario '%s' prints %s (%s), expected %s" % (name, list(o[2]) if len(o) > 2 else o, o[0], expected),
                                  "program": src, "modules": mods, "expected": expected, "signature": "scenario " + name, "failing_input": True})
     # (d) which declaration a use refers to: expectation constructed from the rule
-    grid = resolution_grid() + [p for nm in BUILTIN_NAMES for p in resolution_grid(nm)] + deep_nesting_programs()
+    grid = resolution_grid() + [p for nm in BUILTIN_NAMES for p in resolution_grid(nm)] + deep_nesting_programs() + self_reference_programs() + catch_variable_programs()
     gres, _ = progs.run_programs(ctx.runner, [(n, src, {}) for n, src, _ in grid], {"gc": "default"}, tag="r")
     for (name, src, exp), r in zip(grid, gres):
         o = progs.canon_step(r)
